@@ -484,6 +484,8 @@ where
         let token = match token {
             tokenizer::ParseError(e) => {
                 self.sink.parse_error(e);
+                // A parse error is not a token, so the "next token" is still to come.
+                self.ignore_lf.set(ignore_lf);
                 return tokenizer::TokenSinkResult::Continue;
             },
 
